@@ -593,11 +593,17 @@ class Machine:
             if e is not None:
                 return Adt(e, segs[-1], fields, names)
         dty = self.place_type(body, dest)
-        if dty is not None and len(segs) == 1 and not ops and self.reg is not None:
-            # unit variants of C-like enums are printed bare (`_40 = CREATE_OR_REPLACE;`): the destination type names the enum
-            e = self.reg.enum_def(type_head(dty))
+        if dty is not None and len(segs) == 1 and self.reg is not None:
+            # variants may be printed bare (`_40 = CREATE_OR_REPLACE;`, `_97 = Object(move _98);`): the destination type
+            # names the enum
+            th = type_head(dty)
+            e = self.reg.enum_def(th)
+            if e is None:
+                full = self.reg.enum_of_variant(last_seg(th), segs[0], th)
+                if full is not None:
+                    return Adt(full, segs[0], fields, names)
             if e is not None and any(v[0] == segs[0] for v in e.variants):
-                return Adt(e.full, segs[0], {})
+                return Adt(e.full, segs[0], fields, names)
         if dty is not None and len(segs) >= 2:
             dh = last_seg(type_head(dty))
             if dh == segs[-2] and dh != segs[-1]:
